@@ -20,8 +20,8 @@ EXHAUSTIVE = {"quick": True, "thorough": True}
 RULE = ("Grid (complete): initial store {old absent/present/active} x {new absent/present/active} (not both active) x "
         "bystanders {none, one, one active, two, two with one active} plus old == new, x one fault or none: step in "
         "{LISTSCRIPTS, GETSCRIPT, PUTSCRIPT, SETACTIVE, DELETESCRIPT} x kind in {NO, BYE, silence, close, applied then "
-        "silence, applied then close}, plus quota refusal of the copy, x 7 body shapes (CRLF, LF, mixed, no final newline, "
-        "blank lines, multi-byte, empty); native RENAMESCRIPT is run on the same states as the control. Then random stores, "
+        "silence, applied then close}, plus quota refusal of the copy, x 8 body shapes (CRLF, LF, mixed, no final newline, "
+        "blank lines, multi-byte, empty, Unicode/VT/FF separators inside lines); native RENAMESCRIPT is run on the same states as the control. Then random stores, "
         "names, bodies, fault placements and recv segmentation. Non-trivial: a fault fired or the target existed. "
         "Distinct = grid cells (state, fault, body) / (state class, fault, outcome) for random runs.")
 COMPONENTS = {"real": ["sievelib.managesieve.Client.renamescript and everything it calls"],
@@ -39,6 +39,7 @@ BODIES = [
     b"# one\r\n\r\n\r\nkeep;\r\n\r\n",
     "# café € \U0001d518\r\nkeep;\r\n".encode("utf-8"),
     b"",
+    "# sep\u2028arator\r\nke\x0bep;\x0c\r\n".encode("utf-8"),
 ]
 BYST = ["none", "one", "one-active", "two", "two-active"]
 
